@@ -174,7 +174,7 @@ func checkEnvelope(rec *stats.Recorder, c envCase) string {
 }
 
 func TestC07Envelope(t *testing.T) {
-	g := &aval.Gen{S: S, MaxDepth: 3, PlainKeys: true}
+	g := &aval.Gen{S: S, MaxDepth: 3, PlainKeys: true, ExtraKeys: []string{"[system]", "[0]", "[x", "a[1]", "[]"}}
 	rec := stats.For("C07")
 	if c, ok := hx.Replay[envCase]("C07", "envelope"); ok {
 		if msg := checkEnvelope(rec, c); msg != "" {
